@@ -147,6 +147,11 @@ func (w *world) handoff(sd *side, where string) bool {
 		w.fail("import-rejected-valid-blob", where, "%s: import of a freshly exported blob failed: %v", sd.name, err)
 		return false
 	}
+	// the blob holds the raw key: a careful caller wipes it once the stream is built (the stream
+	// must not depend on the caller's buffer afterwards)
+	for i := range blob {
+		blob[i] = 0
+	}
 	sd.ep, sd.st = ne, ns
 	w.s.Fault("handoff")
 	return true
